@@ -345,10 +345,11 @@ class BagComponent(Component):
 
     def judge(self, case, impl, res):
         m = jsonable(res["model"][0])
-        i = [int(impl[0]), impl[1], impl[2]]
+        eqv = -1 if str(impl[0]) == "asymmetric" else int(impl[0])       # a == b and b == a must agree
+        i = [eqv, impl[1], impl[2]]
         if case.get("plain"):          # repr shows the type (True / 1 / 1.0): only == and len are compared
             m, i = m[:2], i[:2]
-        return std_report(case, m == i, m, i, {}, tags=[f"eq:{int(impl[0])}", f"len:{impl[1]}"],
+        return std_report(case, m == i, m, i, {}, tags=[f"eq:{eqv}", f"len:{impl[1]}"],
                           nontrivial=any(es for _, es in case["a"]) and any(es for _, es in case["b"]))
 
 
@@ -434,6 +435,16 @@ class ParseComponent(Component):
     name = "parse"
 
     def make(self, rng, params):
+        if "maxlines" not in params and rng.random() < 0.04:
+            # BEYOND the modelled (Latin-1) domain: register names that are canonically equivalent in Unicode but
+            # different for str.lower (precomposed / combining accents, Ohm / Omega, Kelvin / K, ligatures).  The
+            # model is not consulted; the result is compared with the written instructions (first spelling by
+            # str.lower, as the property words it) - a search for failing inputs only.
+            pool = ["caf\u00e9", "cafe\u0301", "CAF\u00c9", "A\u00f1o", "An\u0303o", "\u2126", "\u03a9", "\u03c9", "K", "\u212a", "k",
+                    "\ufb01", "fi", "R1", "r1", "\u00c5", "\u212b", "A\u030a"]
+            instrs = gen.rand_instr_list(rng, rng.randint(1, 6), regs=pool)
+            return {"lines": gen.render_program(rng, instrs, None), "instrs": instrs, "corrupt": None, "form": "list",
+                    "beyond": True}
         instrs = gen.rand_instr_list(rng, gen.big(rng, params.get("maxlines", 8), 1200, 0.02))
         corrupt = None
         r = rng.random()
@@ -447,9 +458,18 @@ class ParseComponent(Component):
     def run(self, case):
         import implrun
         impl = implrun.run_parse(case["lines"], case.get("form", "list"))
+        if case.get("beyond"):
+            return [[]], impl                            # the model is not consulted
         return [list(case["lines"])], impl
 
     def judge(self, case, impl, res):
+        if case.get("beyond"):
+            i = jsonable(impl)
+            exp = self.expected(case)
+            return std_report(case, True, exp, i, {"C14": [exp == i, "beyond Latin-1: the written instructions, registers in "
+                                                              "their first spelling by str.lower"],
+                                                   "C13": [exp == i, "registers matched by lower-cased text only"]},
+                              tags=["beyond-latin1"], nontrivial=True)
         m = jsonable(res["model"][0])
         i = jsonable(impl)
         checks = {}
@@ -1179,12 +1199,49 @@ class HwloadComponent(Component):
         import yaml
         hl = implrun.M("hw_loading")
         text = yaml.safe_dump({"microarch": case["desc"], "ISA": {k: v for k, v in case["isa"]}}, sort_keys=False)
+        src = lambda: io.StringIO(text)
+        import re
+        mw = re.search(r"width: (\d)\n", text)
+        tmp = None
+        if len(text) % 3 == 0 and mw:
+            # history: the description is read from a disk FILE whose path was loaded just before with other contents
+            # of the same length and whose time stamps were put back (cp -p / rsync -t / a coarse clock): anything
+            # that remembers files by their metadata returns the old processor
+            import os
+            import tempfile
+            import engine
+            try:
+                os.makedirs(engine.WORK, exist_ok=True)
+                fd, tmp = tempfile.mkstemp(dir=engine.WORK, suffix=".yaml")
+                decoy = text[:mw.start(1)] + str(int(mw.group(1)) % 9 + 1) + text[mw.end(1):]
+                with os.fdopen(fd, "w") as f:
+                    f.write(decoy)
+                st = os.stat(tmp)
+                try:
+                    with open(tmp) as f:
+                        implrun.with_timeout(hl.read_processor, f)
+                except Exception:  # noqa: BLE001
+                    pass
+                with open(tmp, "r+") as f:
+                    f.write(text)
+                os.utime(tmp, ns=(st.st_atime_ns, st.st_mtime_ns))
+                src = lambda: open(tmp)             # noqa: SIM115
+            except OSError:
+                src = lambda: io.StringIO(text)
         try:
-            hd = implrun.with_timeout(hl.read_processor, io.StringIO(text))
+            with src() as fobj:
+                hd = implrun.with_timeout(hl.read_processor, fobj)
             out = [Sym("ok"), implrun.enc_proc(hd.processor), [[k, v] for k, v in hd.isa.items()]]
         except Exception as e:  # noqa: BLE001
             cls, f, msg = implrun.exc_info(e)
             out = [Sym("err"), [Sym(cls)], msg]
+        finally:
+            if tmp:
+                try:
+                    import os
+                    os.remove(tmp)
+                except OSError:
+                    pass
         return [implrun.desc_to_sx(case["desc"]), case["isa"]], out
 
     def judge(self, case, impl, res):
